@@ -22,6 +22,8 @@ type LocalStore struct {
 	workdir  string
 	manifest *manifest.Manager
 	stateMu  sync.Mutex
+	// saved holds the highest counters written so far; guarded by stateMu.
+	saved AllocatorState
 }
 
 // OpenLocalStore opens a file-backed PD storage in workdir.
@@ -88,10 +90,19 @@ func (s *LocalStore) SaveAllocatorState(idCurrent, tsCurrent uint64) error {
 	s.stateMu.Lock()
 	defer s.stateMu.Unlock()
 
-	payload, err := json.Marshal(AllocatorState{
+	// Callers sample the counters before taking stateMu, so a request that sampled
+	// earlier may get here later: never let the checkpoint move backwards.
+	if idCurrent < s.saved.IDCurrent {
+		idCurrent = s.saved.IDCurrent
+	}
+	if tsCurrent < s.saved.TSCurrent {
+		tsCurrent = s.saved.TSCurrent
+	}
+	state := AllocatorState{
 		IDCurrent: idCurrent,
 		TSCurrent: tsCurrent,
-	})
+	}
+	payload, err := json.Marshal(state)
 	if err != nil {
 		return err
 	}
@@ -101,7 +112,11 @@ func (s *LocalStore) SaveAllocatorState(idCurrent, tsCurrent uint64) error {
 	if err := s.fs.WriteFile(tmp, payload, 0o644); err != nil {
 		return err
 	}
-	return s.fs.Rename(tmp, path)
+	if err := s.fs.Rename(tmp, path); err != nil {
+		return err
+	}
+	s.saved = state
+	return nil
 }
 
 // Close closes the underlying manifest manager.
